@@ -210,7 +210,7 @@ def main(argv=None):
     if a.replay:
         rp = json.load(open(a.replay))
         scn = {"sid": rp["sid"], "fn": rp["fn"], "params": rp["params"]}
-        workdir = os.path.join(HERE, ".work", pid + "_replay")
+        workdir = os.path.join(HERE, ".work", "%s_replay_%d" % (pid, os.getpid()))
         os.makedirs(workdir, exist_ok=True)
         out = os.path.join(workdir, "replay.json")
         p = os.fork()
@@ -235,8 +235,12 @@ def main(argv=None):
             print(s["sid"], s["fn"], s.get("params"))
         return 0
     timeout_s = getattr(mod, "TIMEOUT_S", {"quick": 420, "thorough": 1800})[tier]
-    workdir = os.path.join(HERE, ".work", pid)
+    # one scratch directory per run: two runs of the same check (e.g. against two worktrees) must not share result files
+    workdir = os.path.join(HERE, ".work", "%s_%d" % (pid, os.getpid()))
     results = run_scenarios(pid, scns, seed, a.jobs, timeout_s, workdir)
+    if not any(r.get("status") == "error" for r in results):
+        import shutil
+        shutil.rmtree(workdir, ignore_errors=True)  # kept (per-scenario logs) only when a worker failed
 
     known = load_known(pid)
     os.makedirs(os.path.join(HERE, "replays"), exist_ok=True)
